@@ -58,6 +58,9 @@ type writeSpec struct {
 	// the last Read result comes together with the ending (n > 0 and io.EOF / the error / the cancel),
 	// as io.Reader allows; after an error delivered this way the reader answers (0, io.EOF)
 	EndWithData bool `json:"ending_with_data,omitempty"`
+	// > 0: the process "dies" after that many storage calls of this write: the calls after them
+	// have no effect (the storage refuses them), so nothing records how the write ended
+	CrashAfter int `json:"crash_after_calls,omitempty"`
 }
 
 type readSpec struct {
@@ -100,6 +103,7 @@ type scriptedReader struct {
 }
 
 var errReader = errors.New("scripted reader failure")
+var errCrashed = errors.New("the process is gone")
 
 func (r *scriptedReader) Read(p []byte) (int, error) {
 	if r.ended {
@@ -218,8 +222,15 @@ func run(sc *scenario) (coq string, tags []string, err error) {
 	}
 	defer cleanup()
 	var calls []string
+	crashAfter, writeCalls := 0, 0
 	wrap := &kit.Wrap{Inner: inner}
 	wrap.Before = func(c *kit.Call) kit.Verdict {
+		if crashAfter > 0 && (c.Op == "Put" || c.Op == "InsertIfNotExists" || c.Op == "CompareAndSwap") {
+			writeCalls++
+			if writeCalls > crashAfter {
+				return kit.Verdict{FailBefore: errCrashed}
+			}
+		}
 		switch c.Op {
 		case "Put":
 			calls = append(calls, fmt.Sprintf("SPut %s %s %d", kit.Bytes(c.PKey), kit.Bytes(c.CCols), len(c.Value)))
@@ -248,6 +259,7 @@ func run(sc *scenario) (coq string, tags []string, err error) {
 				lim = iblobstoragestg.NewWLimiter_Size(iblobstorage.BLOBMaxSizeType(w.Quota))
 			}
 			calls = nil
+			crashAfter, writeCalls = w.CrashAfter, 0
 			var size uint64
 			var werr error
 			if w.Key.Persistent {
@@ -256,6 +268,23 @@ func run(sc *scenario) (coq string, tags []string, err error) {
 				size, werr = bs.WriteTempBLOB(ctx, *(w.Key.key().(*iblobstorage.TempBLOBKeyType)), descrOf(w.Descr), rd, lim, iblobstorage.DurationType(w.Dur))
 			}
 			cancel()
+			crashed := w.CrashAfter > 0 && writeCalls > w.CrashAfter // a call was refused: the write did not run to its end
+			crashAfter = 0
+			if crashed {
+				done := w.CrashAfter
+				quota := "None"
+				if w.Quota >= 0 {
+					quota = fmt.Sprintf("(Some %d)", w.Quota)
+				}
+				dur := w.Dur
+				if w.Key.Persistent {
+					dur = 0
+				}
+				o.Obs = map[string]any{"crashed_after_calls": done, "err": fmt.Sprint(werr)}
+				terms = append(terms, fmt.Sprintf("BCrash %d %s %d %d %s %s %d", clock.Ms(), w.Key.coq(), w.Descr, dur, quota, chunkList(rd.got), done))
+				tagset["crashed-write"] = true
+				continue
+			}
 			code := 0
 			switch {
 			case werr == nil:
